@@ -67,6 +67,16 @@ Proof.
 Qed.
 Print Assumptions c19_save.
 
+(* CreateInBatches / CreateBatchSize: DryRun sends transaction control only, ToSQL nothing *)
+Theorem c19_batches_silent : forall skip bs orc,
+  forallb is_tx_event (r_log (create_in_batches (dry_cfg skip) bs (rst0 orc))) = true.
+Proof. exact batches_dry_silent. Qed.
+Print Assumptions c19_batches_silent.
+
+Theorem c19_batches_tosql_silent : forall bs orc, r_log (create_in_batches tosql_cfg bs (rst0 orc)) = [].
+Proof. exact batches_tosql_silent. Qed.
+Print Assumptions c19_batches_tosql_silent.
+
 (* non-vacuity *)
 Example c19_instance :
   let b := mk_built "UPDATE t SET a=? WHERE id = ?" [SStr "x"; SInt 1] false false false in
